@@ -5,7 +5,8 @@ package ledger
 // Engine E-SEQ (explicit-state BFS, successors by replay) over the REAL Ledger + BlockEvaluator.
 //
 // System under exploration: an in-memory Ledger (genesis: 4 funded accounts A0..A3, one of
-// them online + incentive eligible, one unfunded address A4, fee sink, rewards pool sized so
+// them online + incentive eligible and 10 microAlgos below a reward-unit boundary, one unfunded
+// address A4, an account A5 holding exactly one reward unit, fee sink, rewards pool sized so
 // that the rewards level moves every round with a non-zero residue) plus a fixed set-up block
 // (asset, two "inner" apps that can issue inner pay / inner close / inner app call, funded app
 // accounts, an asset opt-in). Scenarios: payouts with bonus (vFuture), payouts with bonus 0
@@ -71,6 +72,10 @@ package ledger
 //                                 evaluator's own totals check, caught by oracle (1))
 //   M6 ledger/eval/eval.go       Move skips the zero-amount write for accounts with reward units: a
 //                                 zero-fee keyreg to non-participating then forfeits pending rewards
+// Seeded changes (independent): C18-A (an account holding exactly one reward unit loses its reward
+// when touched; needs the account A5) and C18-B (CalculateTotals counts reward units from
+// balance+pending for rewritten accounts; needs an uncredited rewrite — zero-payout proposer A3 —
+// of an account whose pending rewards cross a unit boundary): both DETECTED.
 
 import (
 	"errors"
@@ -154,7 +159,7 @@ type c18world struct {
 	gen        bookkeeping.GenesisBalances
 	genBlock   bookkeeping.Block
 	genHash    crypto.Digest
-	a          [5]basics.Address
+	a          [6]basics.Address
 	sink, pool basics.Address
 	total      *big.Int
 
@@ -238,9 +243,13 @@ func c18newWorld(t *testing.T, name string, cv protocol.ConsensusVersion, bd c18
 		a[0]: {MicroAlgos: basics.MicroAlgos{Raw: 50_000_123}, Status: basics.Offline},
 		a[1]: {MicroAlgos: basics.MicroAlgos{Raw: 5_300_000}, Status: basics.Offline},
 		a[2]: {MicroAlgos: basics.MicroAlgos{Raw: 1_204_000}, Status: basics.Offline},
-		a[3]: {MicroAlgos: basics.MicroAlgos{Raw: 7_700_777}, Status: basics.Online, IncentiveEligible: true,
+		// 10 microAlgos below a reward-unit boundary: its pending rewards (7 units x level) tip it over
+		// the boundary, so "balance" and "balance + pending rewards" count different reward units
+		a[3]: {MicroAlgos: basics.MicroAlgos{Raw: 7_999_990}, Status: basics.Online, IncentiveEligible: true,
 			VoteID: crypto.OneTimeSignatureVerifier{0x31}, SelectionID: crypto.VRFVerifier{0x32}, StateProofID: merklesignature.Commitment{0x33},
 			VoteFirstValid: 0, VoteLastValid: 1_000_000, VoteKeyDilution: 1000},
+		// exactly one reward unit
+		a[5]: {MicroAlgos: basics.MicroAlgos{Raw: 1_000_000}, Status: basics.Offline},
 		// fee sink small enough that a few 10-Algo bonuses drain it down to its minimum balance
 		w.sink: {MicroAlgos: basics.MicroAlgos{Raw: 23_400_000}, Status: basics.NotParticipating},
 		// rate = (pool - minbalance)/500000 = 137 per round over ~64 reward units: level +2/round, residue != 0
@@ -277,7 +286,7 @@ type c18exec struct {
 
 	asset      basics.AssetIndex
 	appA, appB basics.AppIndex
-	a          [5]basics.Address
+	a          [6]basics.Address
 	sink, pool basics.Address
 	proto      config.ConsensusParams
 
@@ -841,6 +850,8 @@ func c18ops(nEnds int) []c18op {
 		{name: "pay0 A0>A1", build: pay(0, 1, 0)},
 		{name: "pay1 A0>A1", build: pay(0, 1, 1)},
 		{name: "payMinBal A0>A4(new)", build: pay(0, 4, 100_000)},
+		{name: "pay0 A0>A5(exactly 1 reward unit)", build: pay(0, 5, 0)},
+		{name: "pay1 A5(exactly 1 reward unit)>A0", build: pay(5, 0, 1)},
 		// everything the account can spend without closing: balance (with pending rewards) - fee - min balance
 		{name: "payAllSpendable A2>A1", build: func(x *c18exec) []*txntest.Txn {
 			bal := x.curMoney(x.a[2])
